@@ -219,8 +219,13 @@ def saveFile (v : Vtf) (minor sheetVer : Nat) (asw : Bool) : Except Err (List Na
   let dseqW := depthSeq v.flags minor v.depth
   let mut high : List Nat := []
   for k in fileKeys v.mipCount v.frameCount dseqW do
-    let fr := (lookupFrame frames k).getD
-      ⟨max (v.width >>> k.2.2) 1, max (v.height >>> k.2.2) 1, none⟩
+    -- a cubemap created as 7.5+ has no sphere map (side 6): older versions get a blank one
+    let fr ← (match lookupFrame frames k with
+      | some fr => pure fr
+      | none =>
+        if k.2.1 = 6 ∧ v.flags &&& envmapFlag ≠ 0 then
+          pure (⟨max (v.width >>> k.2.2) 1, max (v.height >>> k.2.2) 1, none⟩ : FrameM)
+        else throw Err.key)
     let bs ← encodeFrame v.fmt fr
     high := high ++ bs
   -- header
